@@ -803,18 +803,27 @@ class Gen:
     def k_gls(self):
         if not self.glossary:
             return self.word()
-        st = self.pos()
-        m, out = self.rnd.choice([('\\gls', 'yglstext'), ('\\glspl', 'yglsplural'), ('\\Gls', 'Yglstext'),
-                                  ('\\GLS', 'YGLSTEXT'), ('\\glsdesc', 'yglsdescr'), ('\\glstext', 'yglstext')])
-        self.w(m + '{ylab}')
-        self.gen(out, st + 1, self.pos(), 'glossary')
-
+        variants = [('\\gls', 'yglstext yglstwo'), ('\\glspl', 'yglsplural yglsmany'), ('\\Gls', 'Yglstext yglstwo'),
+                    ('\\GLS', 'YGLSTEXT YGLSTWO'), ('\\glsdesc', 'yglsdescr'), ('\\glstext', 'yglstext yglstwo'),
+                    ('\\Glspl', 'Yglsplural yglsmany'), ('\\GLSpl', 'YGLSPLURAL YGLSMANY'),
+                    ('\\Glsdesc', 'Yglsdescr'), ('\\Glstext', 'Yglstext yglstwo'), ('\\GLStext', 'YGLSTEXT YGLSTWO')]
+        m, out = self.rnd.choice(variants)
+        for rep in range(2 if self.rnd.random() < .35 else 1):
+            if rep:
+                self.w(' ')
+                self.word()
+                self.w(' ')
+                if self.rnd.random() < .5:
+                    m, out = self.rnd.choice(variants)
+            st = self.pos()
+            self.w(m + '{ylab}')
+            self.gen(out, st + 1, self.pos(), 'glossary')
 
 PREAMBLE = ('\\newcommand{\\ymaca}[1]{ybodya #1 ybodyb}\n'
             '\\newcommand{\\ymacb}[2]{#2 ybodyc #1}\n'
             '\\newcommand{\\ymacc}[2][ydflt]{ybodyd #1 #2}\n'
             '\\newcommand{\\ymacd}[1][ydfltb]{ybodye #1}\n')
-GLSDEFS = ('\\gls@defglossaryentry{ylab}%\n{%\nname={yglsname},%\ntext={yglstext},%\nplural={yglsplural},%\n'
+GLSDEFS = ('\\gls@defglossaryentry{ylab}%\n{%\nname={yglsname},%\ntext={yglstext yglstwo},%\nplural={yglsplural yglsmany},%\n'
            'description={yglsdescr},%\nfirst={yglsfirst}%\n}%\n')
 
 
